@@ -11,7 +11,15 @@ import sys
 import tempfile
 
 VERIF = os.path.dirname(os.path.dirname(os.path.abspath(__file__)))
-seeds = [int(x) for x in sys.argv[1:]] or [0]
+resume = None
+argv = sys.argv[1:]
+if "--resume" in argv:
+    # names sorting before this one keep the results stored in their meta.json by an
+    # earlier, interrupted run of this script
+    i = argv.index("--resume")
+    resume = argv[i + 1]
+    del argv[i:i + 2]
+seeds = [int(x) for x in argv] or [0]
 rows = []
 for name in sorted(os.listdir(os.path.join(VERIF, "seeded"))):
     d = os.path.join(VERIF, "seeded", name)
@@ -27,14 +35,24 @@ for name in sorted(os.listdir(os.path.join(VERIF, "seeded"))):
                      "needs": "NO LONGER A BREAKING CHANGE: " + meta["equivalent_since"],
                      "confirmed": confirm, "checks": {}, "equivalent": True})
         continue
+    if resume is not None and name < resume:
+        results = meta.get("verif_confirmation", {}).get("quick_check", {})
+        rows.append({"id": name, "property": pid, "summary": meta.get("summary", ""),
+                     "needs": meta.get("needs", ""), "confirmed": confirm, "checks": results})
+        continue
     for seed in seeds:
         if any(r["caught"] for r in results.values()):
             break  # later seeds are only spent on changes not caught so far
         scr = tempfile.mkdtemp(prefix="seeded.")
         try:
             shutil.copytree("/repo/src", os.path.join(scr, "src"))
-            subprocess.run(["patch", "-s", "-p1", "-i", os.path.join(d, "patch.diff")], cwd=scr,
-                           check=True)
+            applied = subprocess.run(["patch", "-s", "-p1", "-i", os.path.join(d, "patch.diff")],
+                                     cwd=scr, capture_output=True, text=True)
+            if applied.returncode != 0:
+                # written against the tree before one of our repairs changed the same lines
+                meta["stale_patch"] = ("no longer applies to the repaired tree: "
+                                       + applied.stdout.strip().splitlines()[0][:160])
+                break
             env = dict(os.environ, VERIF_REPO_SRC=os.path.join(scr, "src"),
                        VERIF_SCRATCH_OUT=os.path.join(scr, "out"), VERIF_SEED=str(seed))
             proc = subprocess.run([os.path.join(VERIF, "check"), pid, "--tier", "quick"],
@@ -51,6 +69,13 @@ for name in sorted(os.listdir(os.path.join(VERIF, "seeded"))):
         finally:
             shutil.rmtree(scr, ignore_errors=True)
         print(name, pid, seed, results[str(seed)], flush=True)
+    if meta.get("stale_patch") and not results:
+        rows.append({"id": name, "property": pid, "summary": meta.get("summary", ""),
+                     "needs": "PATCH " + meta["stale_patch"] + " (it was caught when it was "
+                     "written: see confirm.log)", "confirmed": confirm, "checks": {},
+                     "equivalent": True})
+        json.dump(meta, open(os.path.join(d, "meta.json"), "w"), indent=1)
+        continue
     rows.append({"id": name, "property": pid, "summary": meta.get("summary", ""),
                  "needs": meta.get("needs", ""), "confirmed": confirm, "checks": results})
     meta["verif_confirmation"] = {"confirmed_in_scratch_worktree": confirm, "quick_check": results}
@@ -82,7 +107,7 @@ with open(os.path.join(VERIF, "seeded", "README.md"), "w") as out:
     n_first = sum(1 for r in live if r["checks"].get(first, {}).get("caught"))
     out.write(f"\n{n_caught} of {len(live)} caught by at least one of the seeds, {n_first} "
               f"already by seed {first}; {len(rows) - len(live)} no longer break the property "
-              f"on the repaired tree (see their row). Changes reported as missed under every "
+              f"on the repaired tree or no longer apply to it (see their row). Changes reported as missed under every "
               f"seed are discussed in DESIGN.md section 10.1 (most of them need inputs outside "
               f"the stated scope of their property).\n")
 print("done")
